@@ -371,6 +371,47 @@ def whole(seed, concurrent):
   return bad
 
 
+def fault_runs(_):
+  """the run ends while its output stage fails with something execute() does not swallow: "once the
+  run has ended no handler of it remains" at that exit too"""
+  sys.argv = sys.argv[:1]
+  import openhtf as htf
+  from openhtf.util import logs
+  from vf import build
+  build.reset_process_globals()
+  bad = []
+  lg = logging.getLogger('openhtf')
+
+  def nhandlers():
+    return len([h for h in lg.handlers if isinstance(h, logs.RecordHandler)])
+  for exc in (KeyboardInterrupt, SystemExit, GeneratorExit):
+    base = nhandlers()
+    seen = []
+
+    def cb(rec, exc=exc):
+      seen.append(rec)
+      raise exc('output callback interrupted')
+
+    def ph(test):
+      test.logger.warning('phase msg')
+    t = htf.Test(ph)
+    t.add_output_callbacks(cb)
+    try:
+      t.execute()
+    except BaseException:  # pylint: disable=broad-except
+      pass
+    if nhandlers() != base:
+      bad.append('record handlers remain installed after a run whose output stage was interrupted')
+      for h in list(lg.handlers):
+        if isinstance(h, logs.RecordHandler):
+          lg.removeHandler(h)
+    n0 = len(seen[0].log_records) if seen else 0
+    logging.getLogger('openhtf.core').warning('after the interrupted run')
+    if seen and len(seen[0].log_records) != n0:
+      bad.append('a finished record was altered by later logging')
+  return bad
+
+
 def work_c(args):
   sys.argv = sys.argv[:1]
   from vf import build  # noqa: F401
@@ -501,6 +542,9 @@ def main(chk):
       chk.nontrivial += n
       for sig, det in bad:
         chk.violation(sig, det)
+    for sig in pool.apply(fault_runs, (0,)):
+      chk.violation(sig, dict(scenario='interrupted output stage'))
+    chk.traces += 3
     n, bad = pool.apply(work_d, (table,))
     chk.traces += n
     for sig, det in bad:
